@@ -644,3 +644,169 @@ Proof.
   - intros ([x|] & Hin & Hz); [eauto|inversion Hz].
   - intros (x & Hin & Hz). exists (Some x). auto.
 Qed.
+
+(* ------------------------------------------------------------------ executions aborted by a panic (TxPipeExt.deliver_panic) *)
+Lemma core_err_no_exec s t : core_err_of s t no_exec = pre_exec_err (ante_effects s t) t.
+Proof. unfold core_err_of, pre_exec_err. cbn [e_commit_err no_exec]. apply orb_false_r. Qed.
+
+Inductive panic_spec (s : st) (t : txd) (gu : Z) : st * txres -> Prop :=
+| PS_dropped : blk_out_of_gas s = true -> panic_reached s t = false ->
+    panic_spec s t gu (s, no_receipt Dropped 0 0 (-1))
+| PS_rej c : blk_out_of_gas s = false -> ante s t = inl c -> panic_reached s t = false ->
+    panic_spec s t gu (s, no_receipt (RejAnte c) (-1) 0 (-1))
+| PS_core : blk_out_of_gas s = false -> admitted s t -> pre_exec_err (ante_effects s t) t = true ->
+    panic_reached s t = false ->
+    let sa := ante_effects s t in
+    panic_spec s t gu (set_blk_used sa (blk_used sa + t_gas t), no_receipt CoreErr (t_gas t) (t_gas t) (tx_count s))
+| PS_panic : blk_out_of_gas s = false -> admitted s t -> pre_exec_err (ante_effects s t) t = false ->
+    panic_reached s t = true ->
+    let sa := ante_effects s t in
+    panic_spec s t gu (set_blk_used sa (blk_used sa + gu), no_receipt CoreErr (t_gas t) gu (tx_count s)).
+
+Lemma panic_cases s t gu : panic_spec s t gu (deliver_panic s t gu).
+Proof.
+  unfold deliver_panic.
+  destruct (blk_out_of_gas s) eqn:Eo.
+  - unfold deliver. rewrite Eo. apply PS_dropped; [assumption|]. unfold panic_reached. rewrite Eo. reflexivity.
+  - destruct (ante s t) as [c|sa] eqn:Ea.
+    + unfold deliver. rewrite Eo, Ea. apply PS_rej; [assumption|assumption|].
+      unfold panic_reached. rewrite Eo, Ea. reflexivity.
+    + destruct (ante_inr _ _ _ Ea) as [Had Hsa]. subst sa.
+      destruct (pre_exec_err (ante_effects s t) t) eqn:Ep.
+      * unfold deliver. rewrite Eo, Ea. unfold pre_exec_err in Ep. cbn [e_commit_err no_exec]. rewrite Ep. cbn [orb].
+        replace (tx_count (ante_effects s t) - 1) with (tx_count s) by (cbn; lia).
+        apply PS_core; try assumption. unfold panic_reached. rewrite Eo, Ea. unfold pre_exec_err. rewrite Ep. reflexivity.
+      * replace (tx_count (ante_effects s t) - 1) with (tx_count s) by (cbn; lia).
+        apply PS_panic; try assumption. unfold panic_reached. rewrite Eo, Ea, Ep. reflexivity.
+Qed.
+
+(* unless the execution is reached, the transaction ends as TxPipe.deliver says (dropped, rejected by the ante handler, or
+   refused by the state transition's own checks with the whole limit consumed) *)
+Lemma panic_not_reached s t gu : panic_reached s t = false -> deliver_panic s t gu = deliver s t no_exec.
+Proof.
+  unfold panic_reached, deliver_panic. destruct (blk_out_of_gas s); [reflexivity|].
+  destruct (ante s t) as [c|sa]; [reflexivity|]. destruct (pre_exec_err sa t); [reflexivity|discriminate].
+Qed.
+
+(* reached: exactly the ante handler's effects remain, the block gas meter takes the observed figure, the result shows
+   the gas limit as gas wanted, the observed figure as gas used, the next Ethereum index, and no receipt *)
+Lemma panic_reached_result s t gu : panic_reached s t = true ->
+  blk_out_of_gas s = false /\ admitted s t /\
+  deliver_panic s t gu = (set_blk_used (ante_effects s t) (blk_used s + gu), no_receipt CoreErr (t_gas t) gu (tx_count s)).
+Proof.
+  intros Hr. destruct (panic_cases s t gu); try congruence. split; [assumption|]. split; [assumption|]. subst sa. reflexivity.
+Qed.
+
+Lemma panic_rejected_changes_nothing s t gu :
+  passed (r_out (snd (deliver_panic s t gu))) = false -> fst (deliver_panic s t gu) = s.
+Proof. destruct (panic_cases s t gu); cbn; intros Hpp; try reflexivity; discriminate. Qed.
+
+Lemma panic_passed_admitted s t gu :
+  passed (r_out (snd (deliver_panic s t gu))) = true -> blk_out_of_gas s = false /\ admitted s t.
+Proof. destruct (panic_cases s t gu); cbn; intros Hpp; try discriminate; split; assumption. Qed.
+
+(* C04: no coin is created or destroyed *)
+Lemma panic_supply s t gu : supply (fst (deliver_panic s t gu)) = supply s.
+Proof. destruct (panic_cases s t gu); reflexivity. Qed.
+
+(* C04 / C05: every balance: if the transaction passed admission, the fee for the WHOLE gas limit went from the sender to
+   the fee collector; nothing else moved - whatever the interpreter had done before the panic is gone *)
+Lemma panic_charge s t gu a :
+  t_from t <> FEE_COLLECTOR ->
+  bal (fst (deliver_panic s t gu)) a =
+    bal s a + (if passed (r_out (snd (deliver_panic s t gu))) && (a =? t_from t) then - (t_gas t * price_of s t) else 0)
+            + (if passed (r_out (snd (deliver_panic s t gu))) && (a =? FEE_COLLECTOR) then t_gas t * price_of s t else 0).
+Proof.
+  intros Hne.
+  destruct (panic_cases s t gu); cbn [fst snd r_out no_receipt passed andb bal]; try lia;
+  (subst sa; cbn;
+   destruct (a =? FEE_COLLECTOR) eqn:E1; [assert (a = FEE_COLLECTOR) by lia; subst; rewrite add_to_same, add_to_other by lia;
+     assert (FEE_COLLECTOR =? t_from t = false) as -> by lia; lia|];
+   rewrite add_to_other by lia;
+   destruct (a =? t_from t) eqn:E2; [assert (a = t_from t) by lia; subst; rewrite add_to_same; lia|];
+   rewrite add_to_other by lia; lia).
+Qed.
+
+Lemma panic_total s t gu l :
+  NoDup l -> In (t_from t) l -> In FEE_COLLECTOR l ->
+  total l (bal (fst (deliver_panic s t gu))) = total l (bal s).
+Proof.
+  intros Hnd Hs Hf.
+  destruct (panic_cases s t gu); cbn [fst bal]; try reflexivity; subst sa; cbn; rewrite !total_add_to by assumption; lia.
+Qed.
+
+(* an account that is neither the sender nor the fee collector keeps its balance: in particular the module account the
+   execution tried to credit, and the EVM module account *)
+Lemma panic_untouched s t gu a :
+  a <> t_from t -> a <> FEE_COLLECTOR -> bal (fst (deliver_panic s t gu)) a = bal s a.
+Proof.
+  intros Hs Hf.
+  destruct (panic_cases s t gu); cbn [fst bal]; try reflexivity; subst sa; cbn; rewrite !add_to_other by lia; reflexivity.
+Qed.
+
+(* C06: the sequence advances by exactly one iff the transaction passed admission *)
+Lemma panic_sqn s t gu a :
+  sqn (fst (deliver_panic s t gu)) a =
+  sqn s a + (if passed (r_out (snd (deliver_panic s t gu))) && (a =? t_from t) then 1 else 0).
+Proof.
+  destruct (panic_cases s t gu); cbn; try lia;
+  (destruct (a =? t_from t) eqn:E; [assert (a = t_from t) by lia; subst; rewrite add_to_same; lia|rewrite add_to_other by lia; lia]).
+Qed.
+
+(* C13 / C05: transient counters: the transaction owns an index and its per-index gas stays at the gas limit *)
+Lemma panic_transient s t gu :
+  let s' := fst (deliver_panic s t gu) in let r := snd (deliver_panic s t gu) in
+  tx_count s' = tx_count s + (if passed (r_out r) then 1 else 0) /\
+  cum_gas s' = cum_gas s + gas_shown r /\
+  log_count s' = log_count s + logs_shown no_exec r.
+Proof.
+  destruct (panic_cases s t gu); cbn; unfold gas_shown, logs_shown; cbn; repeat split; lia.
+Qed.
+
+Lemma panic_index s t gu :
+  passed (r_out (snd (deliver_panic s t gu))) = true ->
+  r_tx_index (snd (deliver_panic s t gu)) = tx_count s /\ r_gas_wanted (snd (deliver_panic s t gu)) = t_gas t.
+Proof. destruct (panic_cases s t gu); cbn; intros Hpp; try discriminate; split; reflexivity. Qed.
+
+Lemma panic_never_executed s t gu v : r_out (snd (deliver_panic s t gu)) <> Executed v.
+Proof. destruct (panic_cases s t gu); cbn; discriminate. Qed.
+
+(* C13: no receipt, so no reported contract address and no bloom *)
+Lemma panic_no_receipt s t gu ca ls : receipt_ext t ca ls (snd (deliver_panic s t gu)) = None.
+Proof. unfold receipt_ext. destruct (panic_cases s t gu); reflexivity. Qed.
+
+(* ------------------------------------------------------------------ what the history theorems need from one Ethereum
+   transaction, whichever way it went (TxPipe.deliver or TxPipeExt.deliver_panic) *)
+Record step_facts (s : st) (t : txd) (o : evm_out) (s' : st) (r : txres) : Prop := {
+  sf_adm : passed (r_out r) = true -> blk_out_of_gas s = false /\ admitted s t;
+  sf_sqn : forall a, sqn s' a = sqn s a + (if passed (r_out r) && (a =? t_from t) then 1 else 0);
+  sf_cnt : tx_count s' = tx_count s + (if passed (r_out r) then 1 else 0);
+  sf_gas : cum_gas s' = cum_gas s + gas_shown r;
+  sf_log : log_count s' = log_count s + logs_shown o r;
+  sf_idx : passed (r_out r) = true -> r_tx_index r = tx_count s;
+  sf_exec : forall v, r_out r = Executed v -> r_cum_gas r = cum_gas s + gas_shown r /\ r_log_start r = log_count s
+}.
+
+Lemma deliver_facts s t o : step_facts s t o (fst (deliver s t o)) (snd (deliver s t o)).
+Proof.
+  pose proof (transient_step s t o) as Ht. cbv zeta in Ht. destruct Ht as (H1 & H2 & H3).
+  constructor; try assumption.
+  - apply passed_iff_admitted.
+  - apply sqn_step.
+  - intros Hp. destruct (r_out (snd (deliver s t o))) eqn:Eo; cbn in Hp; try discriminate.
+    + pose proof (failed_result s t o (or_introl Eo)) as (_ & Hi & _). exact Hi.
+    + pose proof (failed_result s t o (or_intror Eo)) as (_ & Hi & _). exact Hi.
+    + pose proof (executed_result s t o vmerr Eo) as (_ & _ & _ & _ & Hi & _). exact Hi.
+  - intros v Ho. pose proof (executed_result s t o v Ho) as (_ & _ & Hu & _ & _ & Hc & Hl & _).
+    unfold gas_shown. rewrite Ho. split; lia.
+Qed.
+
+Lemma panic_facts s t gu : step_facts s t no_exec (fst (deliver_panic s t gu)) (snd (deliver_panic s t gu)).
+Proof.
+  pose proof (panic_transient s t gu) as Ht. cbv zeta in Ht. destruct Ht as (H1 & H2 & H3).
+  constructor; try assumption.
+  - apply panic_passed_admitted.
+  - apply panic_sqn.
+  - intros Hp. apply panic_index. exact Hp.
+  - intros v Ho. exfalso. exact (panic_never_executed s t gu v Ho).
+Qed.
